@@ -99,7 +99,7 @@ func init() {
 			"github.com/tdewolff/parse/v2/js.(*Scope).AddUndeclared",
 		},
 		Custom:  []string{"partial"},
-		Partial: []string{modPath + "/js.(*jsMinifier).hoistVars"},
+		Partial: []string{modPath + "/js.(*jsMinifier).hoistVars", modPath + "/js.(*jsMinifier).minifyProperty"},
 		Bounded: []BoundedUnit{
 			{Harness: modPath + "/js.specHarnessRenamerNames2", For: modPath + "/js.(*renamer).getName", QuickN: 1, ThoroughN: 1, Tier: "quick",
 				What: "every index of a one- or two-character name, both alphabets, in-place and reallocating buffers: getName yields an IdentifierName and getIndex(getName(i)) == i (hence injective)"},
@@ -110,7 +110,8 @@ func init() {
 			"per-scope slice of capture-freedom: (1) isReserved reports every reserved word of length > 1 (and nothing else when there are no undeclared variables); (2) renameScope makes no call at all (hence writes nothing through getName/isReserved) when renaming is off; (3) generated names are IdentifierNames and distinct for distinct indices below the bound",
 			"A-parser: *Var pointers in Declared/Undeclared are non-nil; Undeclared lists every variable used in the scope or below that is declared outside (the invariant the whole property rests on) - not verified",
 			"hoisting: a var moved into the hoisting target is registered as undeclared in EVERY block scope on the parent chain from the target's scope up to (excluding) the function scope - per-iteration contract of the walk in the real hoistVars (one AddUndeclared(ref) on the current scope, then its parent) plus the exit assertion (nil or function scope reached); AddUndeclared itself is verified against the dependency's source (v ends up listed; only s.Undeclared and its spare capacity change, so the Parent/Func links are kept)",
-			"not decided: the comparison against link-resolved undeclared names (Link chains), sort.Sort permutation, scopes renamed parents-first, the rest of hoistVars (which declarations move, reordering), shorthand re-expansion",
+			"isReserved compares the candidate name with the variable at the END of each free variable's link chain (site assertion: v.Link == nil at the comparison); an object-literal shorthand {x} stays a shorthand only if the key is compared with the name that will be printed, (*Var).Name() (trace assertion in minifyProperty)",
+			"not decided: sort.Sort permutation, scopes renamed parents-first, the rest of hoistVars (which declarations move, reordering), shorthand re-expansion",
 			"A-key: content keys (uninterpreted ckey) identify byte-string contents; bytes.Equal and map lookups by string(name) are expressed through them",
 		},
 	})
@@ -137,7 +138,9 @@ func init() {
 			modPath + "/css.(*Minifier).Minify", modPath + "/html.(*Minifier).Minify", modPath + "/js.(*Minifier).Minify",
 			modPath + ".UpdateErrorPosition",
 		},
+		Units: []string{modPath + ".(*writer).Close", modPath + ".(*M).Reader$go1", modPath + ".(*M).Writer$go1", modPath + ".(*responseWriter).Write$go1"},
 		Notes: []string{
+			"the stream wrappers hand the failure on: the goroutine bodies call the minifier with the CALLER's writer/reader themselves (argument identities in the trace - no buffering layer in between whose deferred flush could lose an error), store or forward its error before releasing the other side, and (*writer).Close returns it (contracts shared with C12)",
 			"return-site (postcondition) obligations over the ghost call trace of each package's real Minify: a nil result is returned only after a zero-length probe write w.Write(nil) that returned a nil error and after which no further write happens, and (all but js) only when the lexer/parser error equals io.EOF; errors of embedded minifiers are returned through UpdateErrorPosition, which never turns a non-nil error into nil",
 			"the six Minify functions are under PARTIAL contract: the registered obligations (the C14 posts plus every safety obligation that discharges) are claimed; the rest is undecided",
 			"A-dep: Err() of the dependency's lexers/parsers is non-nil after an error token; with A 'a failing writer keeps failing' the probe clause yields: writer failure at any write => non-nil result",
@@ -151,10 +154,12 @@ func init() {
 			modPath + "/js.toNullishExpr", modPath + "/js.minifyString", modPath + "/js.(*jsMinifier).optimizeCondExpr",
 			modPath + "/js.(*jsMinifier).minifyStmt", modPath + "/js.(*jsMinifier).minifyExpr",
 			modPath + "/js.(*renamer).renameScope", modPath + "/json.(*Minifier).Minify", modPath + "/html.(*Minifier).Minify",
+			modPath + "/cmd/minify.run",
 		},
 		Notes: []string{
 			"version gates as call-site preconditions / site assertions on the real js code: p_es(v) is DEFINED as (*Minifier).minVersion(v) of the running call; the rewrites that INTRODUCE newer syntax - ?? and ?. (toNullishExpr, ES2020), back-tick quoting (minifyString, ES2015), binding-less catch (ES2019), ** from Math.pow (ES2016) - carry `requires/assert p_es(v)` and every call site / program point must establish it from the branch conditions dominating it. Found and fixed F6 (Math.pow => ** had no version guard)",
 			"Keep*: KeepVarNames/with => renameScope makes no call when renaming is off (C02); KeepNumbers => Number is not called (C07 step contract); html KeepQuotes: the quote handed to EscapeAttrVal is the current attribute's own original quote or none (site assertion)",
+			"CLI plumbing (run(), partial): the asp/php/template flavours of the HTML minifier are the flag-populated HTML minifier with only the delimiters changed - every Keep* field equal at the point where the delimiters are set",
 			"partial contracts: only the registered obligations (the version-gate obligations plus the safety obligations that discharge) are claimed",
 			"not decided: 'and nothing else', html/css/svg/xml Keep* options, semantic guarantees under every option combination, the CLI flag mapping, tokens already present in the input",
 		},
@@ -162,9 +167,10 @@ func init() {
 	registerProp(&PropSpec{
 		ID:     "C19",
 		Custom: []string{"partial"},
-		Partial: []string{modPath + "/cmd/minify.minify"},
-		Units:  []string{modPath + ".(*M).MinifyMimetype", modPath + ".(*M).Minify", modPath + "/cmd/minify.compilePattern"},
+		Partial: []string{modPath + "/cmd/minify.minify", modPath + "/cmd/minify.run"},
+		Units:  []string{modPath + ".(*M).MinifyMimetype", modPath + ".(*M).Minify", modPath + "/cmd/minify.compilePattern", modPath + "/cmd/minify.openOutputFile"},
 		Notes: []string{
+			"openOutputFile under full contract: the destination is opened write-only, created and TRUNCATED (flags of the single os.OpenFile event), stdout for the empty name; run() (partial; channel operations end the verified path): whether an input has a trailing separator is decided on the name as given, not on the cleaned name",
 			"compilePattern (the --include/--exclude/--match filters) under full contract over the ghost trace: a ~pattern is compiled untouched; a glob is quoted, each rewrite consumes the previous result, the `**` rewrite (to `.*`) happens before the `*` rewrite, `?` is rewritten, and the returned regexp/error are those of regexp.Compile on the end of that pipeline",
 			"site assertions over the ghost call trace of the real cmd/minify minify(t): [C19-fallback-original] when the library fails, the buffer copied to the destination is created over exactly the bytes that io.ReadAll returned (content-key equality across the failed m.Minify call, which rests on A-frame: a minifier writes bytes only into its writer's buffer, its reader's exposed buffer, or fresh memory - carried through the proved contracts of (*M).Minify/MinifyMimetype); [C20-backup-removed-only-after-success] os.Remove of the backup happens only on the path where io.Copy returned nil and only for the name dst+\".bak\"",
 			"try.Do(f) is modelled as one execution of f's body (A-try); the operating system and std library calls are trace events (A-os)",
@@ -205,12 +211,14 @@ func init() {
 			modPath + ".(*writer).Close", modPath + ".(*responseWriter).WriteHeader", modPath + ".(*M).ResponseWriter",
 			modPath + ".(*M).Reader", modPath + ".(*M).Writer", modPath + ".(*M).Bytes", modPath + ".(*M).String",
 			modPath + ".(*M).Reader$go1", modPath + ".(*M).Writer$go1", modPath + ".(*responseWriter).Write$go1",
+			modPath + ".(*M).Middleware$fn1", modPath + ".(*M).MiddlewareWithError$fn1",
 		},
 		Custom:  []string{"partial"},
 		Partial: []string{modPath + ".(*responseWriter).Write"},
 		Notes: []string{
 			"sequential contracts on the wrappers of minify.go: writer.Close is idempotent, closes the pipe and THEN waits for the minifier goroutine (trace [Close, Wait]) and returns the minifier's error if set, else the pipe's; responseWriter.WriteHeader deletes Content-Length before writing the status; ResponseWriter derives the fallback media type from the request path extension; Reader/Writer create the pipe and start exactly one goroutine (Writer after wg.Add); responseWriter.Write reads Content-Type before matching and passes writes through only when no minifier matches; Bytes/String hand the whole input to one m.Minify call (C10 contracts)",
 			"the three goroutine bodies (units <func>$go1: the literal's own Type/Body nodes, captured variables bound like parameters) under sequential contract: the minifier runs exactly once on the pipe with the captured arguments; its error is handed over (pw.CloseWithError(err) in Reader, z.err in Writer/responseWriter.Write) BEFORE the releasing event (pipe close, wg.Done - the last event of the body), so that with (*writer).Close's proved [close-then-wait] and [error] clauses 'Close returns the minifier's error' follows under the (assumed, not verified) happens-before of sync.WaitGroup",
+			"the handlers returned by Middleware / MiddlewareWithError (units <func>$fn1): the wrapped handler is served with the minifying writer created for this request, which is then closed; MiddlewareWithError passes a non-nil Close error to errorFunc",
 			"in the spawning function a go statement is abstracted as a spawn event plus havoc of all heaps; the happens-before of wg.Wait and every scheduling/chunking/pacing-quantified clause ('same bytes for any chunking', 'delivered by the time Close returns') are NOT decided by this technique",
 			"chunk independence of the six Minify functions would follow from 'the reader is used exactly once as the argument of parse.NewInput' plus io.ReadAll's contract; that lemma over assumed dependency contracts is not machine-checked here",
 		},
